@@ -43,7 +43,7 @@ Example C04_example :
 Proof. vm_compute. split; reflexivity. Qed.
 
 (* ---- the interleaving level (ConcModel.v): Prefetcher is the identity under EVERY schedule ---- *)
-From PD Require ConcModel ConcInv ConcLive ConcOwner ConcSnap.
+From PD Require ConcModel ConcInv ConcLive ConcOwner ConcSnap ConcPM.
 
 (* For the Prefetcher (_SingleThreadedMapper), any prefetch_factor / snapshot_frequency / source (failing or not), any
    consumer script incl. reset and reset(loaded state), along EVERY interleaving of the read thread and the consumer at
@@ -59,5 +59,30 @@ Theorem C04_prefetcher_is_identity : forall (c : ConcModel.cfg), ConcModel.k_pm 
 Proof. exact ConcSnap.prefetcher_is_identity. Qed.
 Print Assumptions C04_prefetcher_is_identity.
 
-(* the ParallelMapper counterpart (every interleaving of reader, workers, sorter and consumer delivers map f, in order) is
-   the target; it is decided on every run by the scheduler-driven lockstep correspondence *)
+(* ParallelMapper(in_order=True, method="thread"), any num_workers / max_concurrent / snapshot_frequency / map_fn (raising
+   or not) / source (failing or not) / consumer script, along EVERY interleaving of the read thread, the worker threads,
+   the sort thread and the consumer (same granularity, same exclusion D10): the items the current iterator has handed to
+   the consumer are exactly map_fn over the source's items from the position it was started at, in source order, each
+   exactly once (an item on which map_fn raised is consumed and yields nothing); its state denotes the position right
+   after the consumed entries. *)
+Theorem C04_parallel_mapper_is_ordered_map : forall (c : ConcModel.cfg), ConcModel.k_pm c = true -> ConcModel.k_inorder c = true ->
+  forall script sched, ConcOwner.jt_free c (ConcModel.init script) sched = true ->
+  forall g, ConcModel.cur (ConcModel.run c sched (ConcModel.init script)) = Some g ->
+  ConcModel.g_items g = flat_map (ConcPM.fo c) (firstn (ConcModel.g_recv g) (skipn (ConcModel.g_base g) (ConcModel.k_xs c))) /\
+  ConcModel.g_snap g + ConcModel.g_steps g = ConcModel.g_base g + ConcModel.g_recv g.
+Proof. exact ConcPM.parallel_mapper_is_ordered_map. Qed.
+Print Assumptions C04_parallel_mapper_is_ordered_map.
+
+(* the index discipline behind it: every index is in flight at most once between the reader and the sorter's output, only
+   inside [cur_idx, next index), and the sorter's output carries consecutive indices starting at the consumer's *)
+Theorem C04_parallel_mapper_index_discipline : forall (c : ConcModel.cfg), ConcModel.k_pm c = true -> ConcModel.k_inorder c = true ->
+  forall script sched, ConcOwner.jt_free c (ConcModel.init script) sched = true ->
+  forall g, ConcModel.cur (ConcModel.run c sched (ConcModel.init script)) = Some g ->
+  (forall i, ConcPM.cntU i g + ConcPM.cnt i (ConcPM.hidx (ConcModel.g_s g)) <= 1) /\
+  (forall i, 1 <= ConcPM.cntU i g + ConcPM.cnt i (ConcPM.hidx (ConcModel.g_s g)) -> ConcModel.g_scur g <= i < ConcModel.g_ridx g) /\
+  map snd (ConcModel.g_q3 g) = seq (ConcModel.g_taken g) (length (ConcModel.g_q3 g)).
+Proof. exact ConcPM.parallel_mapper_index_discipline. Qed.
+Print Assumptions C04_parallel_mapper_index_discipline.
+
+(* in_order=False (no sorter: results in completion order) is decided on every run by the scheduler-driven lockstep
+   correspondence only *)
